@@ -501,7 +501,7 @@ def present(nodes, mode, keep_fid=False, warm=True):
             if n.get("ann"):
                 core["ann"] = {inn.get(k, k): v for k, v in n["ann"].items()}
             out.append({"k": "graph", "name": n["name"], "graph": {"nodes": [core], "name": n["name"]}, "outs": list(n.get("outs", [])), "params": list(ps),
-                        "renames": [{"kind": "inputs", "map": {v: k for k, v in inn.items()}}]})
+                        "renames": ([{"kind": "warm"}] if warm else []) + [{"kind": "inputs", "map": {v: k for k, v in inn.items()}}]})
         else:
             out.append(n)
     return out
